@@ -21,8 +21,10 @@ FORBIDDEN = re.compile(r"\bsorry\b|\badmit\b|^axiom |native_decide|bv_decide|imp
 TRUSTED_BASE = [
     "Lean 4.33.0 kernel (lake build); axioms allowed: propext, Classical.choice, Quot.sound — anything else fails the audit",
     "lean/JellyModel/Spec.lean as the reading of the Jelly rules (spec/rdf.proto comments + property statements)",
-    "harness/gen_tables.py (translator for finite facts), harness/gen_translate.py + gen_translate_flows.py + lean/JellyModel/PyPrelude.lean (translator for "
-    "the lookup classes and the frame-flow classes: Python ast -> Lean, and the meaning it gives to OrderedDict / deque / set / exceptions) and the differential "
+    "harness/gen_tables.py (translator for finite facts), harness/gen_translate.py + gen_translate_flows.py + gen_translate_funcs.py + gen_translate_enc.py + lean/JellyModel/PyPrelude*.lean (translators for "
+    "the lookup classes, the frame-flow classes, split_iri / delimited_jelly_hint / the options validators and TermEncoder.start_row / end_row / "
+    "encode_iri_indices / encode_literal: Python ast -> Lean, and the meaning it gives to OrderedDict / deque / set / bytes / rpartition / exceptions "
+    "and to the oneof of an RdfLiteral message) and the differential "
     "harness (correspondence check)",
     "the Lean compiler for the driver executable jellydrv; CPython 3.12; protobuf/upb, rdflib modelled not verified",
 ]
